@@ -165,7 +165,7 @@ def run(ctx):
     else:
         nvalid, per_prog = 36, 9
 
-    b = ctx.coq_build(["C11/Effects.v", "C11/EffectsSound.v", "C11/EffectsPure.v", "C11/EffectsReject.v", "C11/PropsEffects.v"])
+    b = ctx.coq_build(["C11/Effects.v", "C11/EffectsSound.v", "C11/EffectsPure.v", "C11/EffectsReject.v", "C11/EffectsTerm.v", "C11/PropsEffects.v"])
     model_ok = b["ok"] or not b.get("file", "").endswith("/Effects.v")
 
     ext_code = compile_full(G.EXT_SRC, front)
